@@ -31,12 +31,14 @@ fn run_line(line: &str) -> String {
         "PKCERAND" => pkce::pkcerand(&ws[1..]),
         "CSRF" => pkce::csrf(&ws[1..]),
         "RANDBULK" => pkce::randbulk(&ws[1..]),
+        "RANDPOS" => pkce::randpos(&ws[1..]),
         "SECEQ" => pkce::seceq(&ws[1..]),
         "URLT" => urlt::urlt(&ws[1..]),
         "URLP" => urlt::urlp(&ws[1..]),
         "HTTP" => http::run(&ws[1..]),
         "DECODE" => http::decode(&ws[1..]),
         "BUILT" => http::built(&ws[1..]),
+        "SLOWRT" => http::slowrt(&ws[1..]),
         "ILV" => http::interleave(&ws[1..]),
         "DBG" => dbg::run(&ws[1..]),
         "DBGPH" => dbg::dbgph(&ws[1..]),
